@@ -839,6 +839,27 @@ func ruleFM1(c *Ctx) *rule {
 								uncond = false
 							}
 						}
+						// and no way round the loop avoids it (a `continue` under `a && b` leaves no single necessary guard)
+						seenB := map[*ssa.BasicBlock]bool{}
+						var walk func(x *ssa.BasicBlock)
+						walk = func(x *ssa.BasicBlock) {
+							if x == b || seenB[x] || !l.body[x] {
+								return
+							}
+							seenB[x] = true
+							for _, sx := range x.Succs {
+								if sx == l.header {
+									uncond = false
+									continue
+								}
+								walk(sx)
+							}
+						}
+						for _, sx := range l.header.Succs {
+							if l.body[sx] {
+								walk(sx)
+							}
+						}
 						sl := c.newSlicer()
 						sl.depth = 0
 						if uncond && sl.run(site.Common().Value).hasField("ast.Tree.Nodes") {
@@ -1331,6 +1352,77 @@ func ruleFM6(c *Ctx) *rule {
 
 // ---- PR5: no line scanner over the input whose error is ignored ----------------------------------------------------------------------
 
+// ---- PR6: nothing in the scanner, the parser or the printer depends on the iteration order of a map ---------------------------------
+
+func rulePR6(c *Ctx) *rule {
+	r := &rule{ID: "PR6", Engine: "E2", Floor: 0,
+		Statement: "in the lexer, parser, ast and token packages no loop over a map is left from inside its body (return, break, goto) and none sends a token from inside it: what such a loop produces would depend on Go's randomised map iteration order",
+		Necessity: "parsing the same text twice must give the same tree or the same error text; a 'first match wins' search through a map (a table of hints, of keywords) picks a different match from run to run when two keys apply"}
+	n := 0
+	for _, f := range c.ModFuncs {
+		switch shortPkg(fnPkgPath(f)) {
+		case "lexer", "parser", "ast", "token":
+		default:
+			continue
+		}
+		fi := c.info(f)
+		for _, b := range f.Blocks {
+			for _, in := range b.Instrs {
+				rg, ok := in.(*ssa.Range)
+				if !ok {
+					continue
+				}
+				if _, isMap := rg.X.Type().Underlying().(*types.Map); !isMap {
+					continue
+				}
+				// the loop whose header pulls from this iterator
+				var loop *loopInfo
+				for _, l := range fi.loops {
+					for _, hin := range l.header.Instrs {
+						if nx, isNext := hin.(*ssa.Next); isNext && nx.Iter == ssa.Value(rg) {
+							loop = l
+						}
+					}
+				}
+				n++
+				key := fmt.Sprintf("%s map-range#%d", fname(f), n)
+				if loop == nil {
+					r.undecided(key, c.ipos(rg), "cannot find the loop that consumes this map iterator")
+					continue
+				}
+				bad := ""
+				for _, lb := range f.Blocks {
+					if !loop.body[lb] || lb == loop.header {
+						continue
+					}
+					for _, sx := range lb.Succs {
+						if !loop.body[sx] {
+							bad = "the loop is left from inside its body at " + c.bpos(lb) + ": which entry gets there first depends on the map's iteration order"
+						}
+					}
+					for _, lin := range lb.Instrs {
+						switch lin.(type) {
+						case *ssa.Send:
+							bad = "a value is sent from inside the loop at " + c.ipos(lin) + ": the order of what is sent depends on the map's iteration order"
+						case *ssa.Return:
+							bad = "the function returns from inside the loop at " + c.ipos(lin) + ": which entry is returned depends on the map's iteration order"
+						}
+					}
+				}
+				if bad == "" {
+					r.ok(key, c.ipos(rg), "the loop always runs over the whole map and sends nothing")
+				} else {
+					r.bad(key, c.ipos(rg), bad)
+				}
+			}
+		}
+	}
+	if n == 0 {
+		r.ok("syntax packages map ranges", "-", "no loop over a map in lexer, parser, ast or token")
+	}
+	return r
+}
+
 func rulePR5(c *Ctx) *rule {
 	r := &rule{ID: "PR5", Engine: "E3", Floor: 1,
 		Statement: "in the lexer, parser, ast and token packages every bufio.Scanner has its Err() consulted (or no scanner is used at all: the pinned tree splits the input with strings functions)",
@@ -1497,7 +1589,7 @@ func parseProperties() []*propertySpec {
 			Explanation: "Only the error-reporting and scan-termination clauses are structural and are what this check decides: PR1/PR2 (typed syntax tree, object identity of identifiers) prove that every ERROR arm of the parser reports the tested token's own Value and that every illegalToken quotes the line of the token it cites; LX1 proves on the lexer's state-function graph (recovered from the function constants each state can return) that a scan ends only through l.error (which sends an ERROR token) or directly after emit(EOF), and that run closes the channel after the state loop; LX2 proves every state path from the LBRACE state reaches the RBRACE state or an error before any EOF-emitting state; PR3 proves every token loop of the parser calls next() on every way round and is left on ERROR. Totality / absence of panics over all byte strings is NOT decided.",
 			NotCovered:  []string{"totality and absence of panics (index arithmetic in getLine, rune decoding) over all byte strings", "that each lexer state consumes input (cursor arithmetic)", "that cited line numbers are within 1..lines"},
 			Assumptions: []string{"a receive from the closed token channel yields the zero token, whose type is token.EOF"},
-			Rules:       []func(*Ctx) *rule{rulePR1, rulePR2, rulePR3, rulePR4, rulePR5, ruleLX1, ruleLX2, ruleFM6}},
+			Rules:       []func(*Ctx) *rule{rulePR1, rulePR2, rulePR3, rulePR4, rulePR5, rulePR6, ruleLX1, ruleLX2, ruleFM6}},
 		{ID: "C15", Title: "Formatting keeps every comment and every task's docstring",
 			Explanation: "FM1 proves by a may-be-empty analysis over the SSA form of every String() method of the node types the parser appends (Comment, Assign, Task) that no return path prints the empty string, and that Tree.Write prints every node once, in order; FM2 proves by edge dominance that a parsed comment becomes a docstring only under the guard that the very next token is the task keyword, is never carried over from another iteration, and that Task.String prints it before the keyword; FM3 proves by path enumeration that every way round the parse loop appends exactly one node.",
 			NotCovered:  []string{"preservation of the comment text itself and of order (value-level)", "comments inside task bodies (the lexer rejects them)"},
